@@ -65,20 +65,27 @@ def clean_prefixes(ns_map: dict) -> dict:
     return result
 
 
+XMLNS_URI = "http://www.w3.org/2000/xmlns/"
+
+
 def validate_prefix(prefix: str | None, uri: str) -> None:
     """Validate a user prefix can be declared for the uri in a xml document.
 
     Raises:
-        SerializerError: If the prefix is not a valid NCName, or it's one of the
-            reserved xml/xmlns prefixes bound to anything but their own namespace.
+        SerializerError: If the prefix is not a valid NCName, or the reserved
+            xml/xmlns prefixes or namespaces are bound to anything else.
     """
+    reserved = uri == XMLNS_URI or (prefix != "xml" and uri == Namespace.XML.uri)
     if prefix is None:
+        if reserved:
+            raise SerializerError(f"The default namespace can't be `{uri}`")
         return
 
     if (
         not is_ncname(prefix)
         or prefix == "xmlns"
-        or (prefix == "xml") != (uri == Namespace.XML.uri)
+        or reserved
+        or (prefix == "xml" and uri != Namespace.XML.uri)
     ):
         raise SerializerError(f"Invalid namespace prefix `{prefix}` for `{uri}`")
 
